@@ -5,7 +5,7 @@
    This file only restates the property theorems; proofs are in frame/*Proofs.v. *)
 From Coq Require Import List NArith ZArith Bool.
 From JV Require Import Bytes FrameBase FrameBaseProofs FrameSpec Split SplitProofs Hdr HdrProofs
-  JsonScan JsonScanProofs RawJson RawJsonProofs Direct DirectProofs DirectMore FrameMore.
+  JsonScan JsonScanProofs RawJson RawJsonProofs Direct DirectProofs DirectMore FrameMore Chunked ChunkedProofs.
 Import ListNotations.
 Local Open Scope N_scope.
 
@@ -125,3 +125,24 @@ Theorem c11_split_window_indep : forall c b k s,
   0 < k -> Split.recv_k c b k tt s = Split.recv c b tt s.
 Proof. exact split_window_indep. Qed.
 Print Assumptions c11_split_window_indep.
+
+(* ---- fragmentation: "regardless of how the transport fragments or coalesces the byte stream" ----
+   Chunked.v models the transport as a list of non-empty chunks (one Read returns at most the next
+   chunk, cut to the space offered; io.EOF after the last chunk or, with [eager], together with the
+   last bytes) and bufio.Reader's buffer / fill / ReadSlice on top of it. *)
+
+(* Split: the whole sequence of Recv calls through the chunked reader is the stream model's
+   observation of the concatenated chunks *)
+Theorem c11_split_chunked : forall c eager b chunks,
+  Forall nonempty chunks ->
+  crecv_all c eager b chunks = Split.recv_all c b (concat chunks).
+Proof. exact split_chunked_recv_all. Qed.
+Print Assumptions c11_split_chunked.
+
+(* hence the round trip for EVERY way of cutting the encoded stream into reads *)
+Theorem c11_split_chunked_round_trip : forall eager b rs chunks,
+  Forall (fun r => ~ In b r) rs -> Forall nonempty chunks ->
+  concat chunks = SplitSpec.encode b rs ->
+  crecv_all cfg_fixed eager b chunks = map IRec rs ++ [IErr EEOF].
+Proof. exact split_chunked_round_trip. Qed.
+Print Assumptions c11_split_chunked_round_trip.
